@@ -28,6 +28,8 @@ type SFile struct {
 	// "definitions" block holding decoys under the same names; "#/$defs/X" must
 	// keep denoting the real ones. Refs into such a file are spelled "#/$defs/".
 	BothDefs bool `json:"both_defs,omitempty"`
+	// URL: the document is not a file but is served by the virtual web at this URL
+	URL string `json:"url,omitempty"`
 	// ClashDef: the definition named like another definition's inline type (KF-C10-4 scope)
 	ClashDef string `json:"clash_def,omitempty"`
 	// CRLF (YAML only): saved with CRLF line ends and block scalars for multi-line text
@@ -205,6 +207,9 @@ func (w *World) FSNodes(prefix string, ko *KeyOrder) []simrt.Node {
 	var ns []simrt.Node
 	ns = append(ns, simrt.Node{Path: MapAbs(prefix, w.Root, w.Root), Kind: "d"})
 	for _, f := range w.Files {
+		if f.URL != "" {
+			continue
+		}
 		var k *KeyOrder
 		if ko != nil {
 			k = &KeyOrder{Choices: ko.Choices}
@@ -233,6 +238,15 @@ func (w *World) Spec(prefix string, ko *KeyOrder, args []string) simrt.Spec {
 		a[i] = strings.ReplaceAll(a[i], RootPH, MapAbs(prefix, w.Root, w.Root))
 	}
 	web := append([]simrt.WebEnt(nil), w.Web...)
+	for _, f := range w.Files {
+		if f.URL != "" {
+			ct := "application/json"
+			if f.YAML {
+				ct = "application/yaml"
+			}
+			web = append(web, simrt.WebEnt{URL: f.URL, ContentType: ct, Body: subst(f.Bytes(ko), prefix, w.Root)})
+		}
+	}
 	return simrt.Spec{Args: a, Cwd: MapAbs(prefix, w.Root, w.Cwd), FS: w.FSNodes(prefix, ko), Web: web, MaxTicks: DefaultMaxTicks}
 }
 
@@ -265,6 +279,7 @@ type Feat struct {
 	Subdirs, Symlink, NoExt, Pkgs, TypelessRoot, OddKeys                   bool
 	RecCombo                                                               bool // allow reference cycles through allOf/anyOf
 	Shadow                                                                 bool // two files named common.json in two directories
+	WebDoc                                                                 bool // one schema is served over (simulated) HTTP and referenced by URL, twice
 	WeirdName                                                              bool // a file whose name contains %41 / ? next to a decoy named as the decoded form
 	ExtShadow                                                              bool // e0f.json and e0f.yaml side by side, referenced without extension
 	SamePkgBase                                                            bool // mapped packages share their last path element (pk1/v1, pk2/v1): no cross-package refs then
@@ -366,6 +381,7 @@ func genWorld(t *rapid.T, maxFiles int, recCombo, http, shadows bool) *World {
 		feat.Shadow = rapid.IntRange(0, 99).Draw(t, "f:shadow") < 40
 		feat.ExtShadow = rapid.IntRange(0, 99).Draw(t, "f:extshadow") < 30
 		feat.WeirdName = rapid.IntRange(0, 99).Draw(t, "f:weirdname") < 25
+		feat.WebDoc = rapid.IntRange(0, 99).Draw(t, "f:webdoc") < 20
 		if feat.Shadow {
 			feat.Subdirs = true
 		}
@@ -451,6 +467,14 @@ func genWorld(t *rapid.T, maxFiles int, recCombo, http, shadows bool) *World {
 				Defs: []string{fmt.Sprintf("S%dDa", i)}}
 			w.Files = append(w.Files, sf)
 		}
+	}
+	if feat.WebDoc {
+		yaml := rapid.IntRange(0, 3).Draw(t, "webyaml") == 0
+		hf := &SFile{Tag: "h0", Base: "webf.json", RootObj: true, ID: "https://example.com/h0", Defs: []string{"H0Da"}, URL: "http://example.com/s/webf.json"}
+		if yaml {
+			hf.YAML, hf.Base, hf.URL = true, "webf.yaml", "http://example.com/s/webf.yaml"
+		}
+		w.Files = append(w.Files, hf)
 	}
 	if feat.WeirdName {
 		// a reference is a literal file name: "w0%41f.json" is not "w0Af.json", "w1?f.json"
@@ -1088,7 +1112,7 @@ func (g *genCtx) mayRequire(v any) bool {
 
 // isSpecial: shadow / extension-shadow files (referenced only by forced refs).
 func isSpecial(f *SFile) bool {
-	return strings.HasPrefix(f.Tag, "s") || strings.HasPrefix(f.Tag, "e") || strings.HasPrefix(f.Tag, "w")
+	return strings.HasPrefix(f.Tag, "s") || strings.HasPrefix(f.Tag, "e") || strings.HasPrefix(f.Tag, "w") || strings.HasPrefix(f.Tag, "h")
 }
 
 // forcedRefs adds the discriminating references to the root struct of file f.
@@ -1121,6 +1145,15 @@ func (g *genCtx) forcedRefs(props Obj) Obj {
 				} else {
 					addC(fmt.Sprintf("%s#/$defs/S%dDa", sp, i), fmt.Sprintf("s%d", i), fmt.Sprintf("S%dDa", i), "shadow", kw)
 				}
+			}
+		}
+	}
+	if g.feat.WebDoc && f == g.w.Files[0] {
+		if hf := g.w.File("h0"); hf != nil {
+			add(hf.URL, "h0", "", "http")
+			add(hf.URL+"#/$defs/H0Da", "h0", "H0Da", "http")
+			if g.pct("httpagain", 50) {
+				add(hf.URL, "h0", "", "http")
 			}
 		}
 	}
